@@ -410,7 +410,7 @@ func ruleEffectInputs(c *Ctx) {
 	if fd := c.fn("Decimal.UnmarshalJSON"); fd != nil && len(fd.Body.List) > 0 {
 		env := p.newCanonEnv(fd)
 		got := env.canonStmt(fd.Body.List[0])
-		c.check(got == "if((conv(string;P0)==K(\"null\"))){return nil}", "json.null", fd.Body.List[0], "null returns nil before anything is read or stored", "UnmarshalJSON must return nil for `null` before touching the receiver: "+got, "C13", "C20")
+		c.check(got == "if((K(\"null\")==conv(string;P0))){return nil}", "json.null", fd.Body.List[0], "null returns nil before anything is read or stored", "UnmarshalJSON must return nil for `null` before touching the receiver: "+got, "C13", "C20")
 	}
 	_ = m
 }
@@ -621,8 +621,9 @@ func ruleEffectIndex(c *Ctx) {
 			//  (2) l10 = l2*1233>>12 with l2 <= 64·limbs                       (log10)
 			//  (3) remainder of division by N                                  (digitPairs[rem])
 			//  (4) msd - 11 under msd > 10                                     (ln table)
+			negInner, _ := negOperand(p, idx)
 			switch {
-			case isNeg(idx):
+			case isNeg(idx) && negInner != nil:
 				inner, off := negOperand(p, idx)
 				okLo, okHi := false, false
 				why := ""
@@ -648,146 +649,80 @@ func ruleEffectIndex(c *Ctx) {
 }
 
 func isNeg(e ast.Expr) bool {
-	u, ok := ast.Unparen(e).(*ast.UnaryExpr)
-	return ok && u.Op == token.SUB
+	e = ast.Unparen(e)
+	if u, ok := e.(*ast.UnaryExpr); ok && u.Op == token.SUB {
+		return true
+	}
+	if be, ok := e.(*ast.BinaryExpr); ok && be.Op == token.SUB {
+		return true
+	}
+	return false
 }
 
-// negOperand decomposes -X or -(X - c) into (X, c).
+// negOperand decomposes an index of the form off - X into (X, off):
+// -X, -(X - c), c - X.
 func negOperand(p *Prog, e ast.Expr) (ast.Expr, int64) {
-	u := ast.Unparen(e).(*ast.UnaryExpr)
+	e = ast.Unparen(e)
+	if be, ok := e.(*ast.BinaryExpr); ok && be.Op == token.SUB {
+		if cst, ok := p.constInt64(be.X); ok && p.constOf(be.Y) == nil {
+			return ast.Unparen(be.Y), cst
+		}
+		return nil, 0
+	}
+	u, ok := e.(*ast.UnaryExpr)
+	if !ok {
+		return nil, 0
+	}
 	x := ast.Unparen(u.X)
 	if be, ok := x.(*ast.BinaryExpr); ok && be.Op == token.SUB {
 		if cst, ok := p.constInt64(be.Y); ok {
-			return be.X, cst
+			return ast.Unparen(be.X), cst
 		}
 	}
 	return x, 0
 }
 
-// negIndexGuards checks that index -(X-off) lies in [0, N): X - off <= 0 and X - off > -N.
+// negIndexGuards checks that the index off - X lies in [0, N): X <= off and X > off - N.
 func (p *Prog) negIndexGuards(fd *ast.FuncDecl, stack []ast.Node, site ast.Node, x ast.Expr, off int64, N int64) (bool, bool, string) {
 	key := p.exprKey(x)
 	if key == "" {
 		return false, false, "index operand is not a variable"
 	}
-	okLo, okHi := false, false // okHi: index < N (X-off > -N); okLo: index >= 0 (X-off <= 0)
-	note := func(op token.Token, k int64, taken bool) {
-		// condition X op k is known `taken` at the site
-		if !taken {
-			switch op {
-			case token.GTR:
-				op = token.LEQ
-			case token.GEQ:
-				op = token.LSS
-			case token.LSS:
-				op = token.GEQ
-			case token.LEQ:
-				op = token.GTR
-			default:
-				return
-			}
+	full := append(append([]ast.Node{}, stack...), site)
+	facts := p.factsAt(full, func(s ast.Stmt) bool {
+		if _, isFor := s.(*ast.ForStmt); isFor {
+			return false // a loop that drives X re-establishes its own exit condition
 		}
+		return p.assignsTo(s, key)
+	})
+	okLo, okHi := false, false
+	for _, f := range facts {
+		fx, op, k, ok := p.normCmp(f.cond)
+		if !ok || p.exprKey(fx) != key || !k.IsInt64() {
+			continue
+		}
+		if !f.val {
+			op = negOp(op)
+		}
+		kv := k.Int64()
 		switch op {
-		case token.GTR: // X > k  =>  X-off >= k+1-off ; need >= -N+1
-			if k+1-off >= -N+1 {
+		case token.GTR: // X > kv  =>  index = off - X < off - kv ; need <= N
+			if off-kv <= N {
 				okHi = true
 			}
-		case token.GEQ:
-			if k-off >= -N+1 {
-				okHi = true
-			}
-		case token.LEQ: // X <= k => X-off <= k-off ; need <= 0
-			if k-off <= 0 {
+		case token.LEQ: // X <= kv => index >= off - kv ; need >= 0
+			if off-kv >= 0 {
 				okLo = true
 			}
-		case token.LSS:
-			if k-1-off <= 0 {
-				okLo = true
-			}
-		}
-	}
-	evalCond := func(cond ast.Expr, taken bool) {
-		parts := []ast.Expr{cond}
-		if taken {
-			parts = conjuncts(cond)
-		} else {
-			// not (a || b) = !a && !b
-			var split func(e ast.Expr) []ast.Expr
-			split = func(e ast.Expr) []ast.Expr {
-				e = ast.Unparen(e)
-				if be, ok := e.(*ast.BinaryExpr); ok && be.Op == token.LOR {
-					return append(split(be.X), split(be.Y)...)
-				}
-				return []ast.Expr{e}
-			}
-			parts = split(cond)
-		}
-		for _, part := range parts {
-			be, ok := ast.Unparen(part).(*ast.BinaryExpr)
-			if !ok || p.exprKey(be.X) != key {
-				continue
-			}
-			k, ok := p.constInt64(be.Y)
-			if !ok {
-				continue
-			}
-			note(be.Op, k, taken)
-		}
-	}
-	// earlier early-returns in enclosing blocks: if cond { return } before the site => !cond holds
-	chain := blockChain(append(append([]ast.Node{}, stack...), site))
-	for _, bp := range chain {
-		for j := 0; j < bp.idx; j++ {
-			s := bp.list[j]
-			if ifs, ok := s.(*ast.IfStmt); ok && ifs.Else == nil && blockLeaves(ifs.Body.List) {
-				evalCond(ifs.Cond, false)
-			}
-			// loops that establish X >= c on exit: for X < c { ... X++/X += k }
-			if f, ok := s.(*ast.ForStmt); ok && f.Cond != nil {
-				if be, ok := ast.Unparen(f.Cond).(*ast.BinaryExpr); ok && p.exprKey(be.X) == key {
-					if k, ok := p.constInt64(be.Y); ok {
-						// after the loop (no break that skips the condition): !(cond)
-						brk := false
-						ast.Inspect(f.Body, func(m ast.Node) bool {
-							if b, ok := m.(*ast.BranchStmt); ok && b.Tok == token.BREAK {
-								brk = true
-							}
-							return true
-						})
-						if !brk {
-							note(be.Op, k, false)
-						}
-					}
-				}
-			}
-			if p.assignsTo(s, key) {
-				if _, isFor := s.(*ast.ForStmt); !isFor {
-					// a plain reassignment invalidates earlier knowledge
-					okLo, okHi = false, false
-				}
-			}
-		}
-	}
-	// enclosing conditions
-	for i := len(stack) - 1; i >= 0; i-- {
-		switch s := stack[i].(type) {
-		case *ast.IfStmt:
-			if i+1 < len(stack) && stack[i+1] == ast.Node(s.Body) {
-				evalCond(s.Cond, true)
-			} else if s.Init != nil && containsNode(s.Init, site) {
-				// the access is in the init statement of an if nested in a guarded block: keep walking
-			} else if s.Else != nil && i+1 < len(stack) && stack[i+1] == s.Else {
-				evalCond(s.Cond, false)
-			}
-		case *ast.ForStmt:
-			if s.Cond != nil && i+1 < len(stack) && stack[i+1] == ast.Node(s.Body) {
-				evalCond(s.Cond, true)
+		case token.EQL:
+			if off-kv >= 0 && off-kv < N {
+				okLo, okHi = true, true
 			}
 		}
 	}
 	why := ""
 	if !okHi {
-		why += fmt.Sprintf("no dominating guard establishes %s > %d; ", p.exprStr(x), -N+off)
+		why += fmt.Sprintf("no dominating guard establishes %s > %d; ", p.exprStr(x), off-N)
 	}
 	if !okLo {
 		why += fmt.Sprintf("no dominating guard establishes %s <= %d", p.exprStr(x), off)
